@@ -214,6 +214,17 @@ class SymArray:
         return r
 
     def __setitem__(self, key, value):
+        # masked store of a scalar under a symbolic mask of the array's own shape: merge with
+        # if-then-else instead of forking
+        if isinstance(key, SymArray) and key.size and key.shape == self.a.shape and all(e.kind == "B" for e in key.a.flat) and not isinstance(value, (SymArray, _np.ndarray, list, tuple)) \
+                and not key.all_concrete():
+            v = SV.of(value)
+            if not (v.t is None and isinstance(v.c, float)):
+                if self.tag is not None:
+                    ctx().events.append(("mutate-input", self.tag, core._where()))
+                for i in _np.ndindex(*self.a.shape):
+                    self.a[i] = core.sv_if(key.a[i], v, self.a[i])
+                return
         k = self._key(key)
         if self.tag is not None:
             ctx().events.append(("mutate-input", self.tag, core._where()))
@@ -315,3 +326,11 @@ SymArray.__neg__ = lambda s: _unary(lambda a: -a)(s)
 SymArray.__invert__ = lambda s: _unary(lambda a: ~a, "bool")(s)
 SymArray.__abs__ = lambda s: _unary(abs)(s)
 SymArray.__pos__ = lambda s: s
+
+
+def symarr(names, kind="R"):
+    """1-D SymArray of fresh named symbolic values."""
+    out = _np.empty((len(names),), dtype=object)
+    for i, n in enumerate(names):
+        out[i] = SV(t=z3.Real(n)) if kind == "R" else SV(t=z3.Bool(n), kind="B")
+    return SymArray(out, "float" if kind == "R" else "bool")
